@@ -318,7 +318,13 @@ def load_known_findings(pid):
   if not os.path.exists(path):
     return []
   data = json.load(open(path))
-  return [e for e in data.get("findings", []) if e.get("property") == pid]
+  out = [e for e in data.get("findings", []) if e.get("property") == pid]
+  # development aid only (never set by MANIFEST commands): entries proposed but not yet accepted
+  if os.environ.get("VERIF_PROPOSED_FINDINGS") == "1":
+    pp = os.path.join(VERIF, "proposed_findings", pid + ".json")
+    if os.path.exists(pp):
+      out += [e for e in json.load(open(pp)).get("findings", []) if e.get("property") == pid]
+  return out
 
 
 # ----------------------------------------------------------------------------
@@ -362,11 +368,15 @@ class Ctx:
       self.cov["samples"].append(sample)
 
   # ---- proofs ------------------------------------------------------------
-  def proofs(self, prop_files, extra_targets=()):
+  def proofs(self, prop_files, extra_targets=(), dirs=None):
     """Build the hand-written theories needed by prop_files (paths relative to
     coq/theories, e.g. 'Properties/C06.v'), re-run coqc on each to capture Print
     Assumptions, count obligations.  Returns True iff all proof obligations check."""
-    bad = grep_gate()
+    dirs = list(dirs or []) + ["Base", self.pid]
+    paths = [os.path.join(THEORIES, f) for f in prop_files]
+    for d in dirs:
+      paths += glob.glob(os.path.join(THEORIES, d, "**", "*.v"), recursive=True)
+    bad = grep_gate(sorted(set(paths)))
     if bad:
       self.log("grep gate failed:", bad[:5])
       self.proof_failure("grep-gate", "\n".join(bad))
